@@ -15,6 +15,10 @@ TABLE = {
   text="Bounded symbolic execution of 37 collection-filter templates (sync and async variants, list/generator/async-generator inputs): symbolic int lists (<=3 quick / <=4 thorough), lists of dicts built from symbolic ints, symbolic counts/fill values/flags, and solver-enumerated strings from a mixed-case table for case handling; results compared with the Python definitions, inputs compared with deep copies.",
   note="Trusted: CrossHair models, z3, Python's sorted/min/max/sum as reference. Longer sequences and other element types are outside the bound.",
   technique="symbolic execution (CrossHair/z3) of filter code through compiled templates vs Python reference definitions"),
+ "C23": dict(
+  text="Bounded symbolic execution of the string/number filters through compiled templates: genuinely symbolic strings (<=5 quick / <=7 thorough) and integers for truncate (explicit and policy leeway), center, trim, replace, int, float (with a float()-overflow boundary stub); solver-enumerated strings over small alphabets (exhaustion certified) for indent, wordcount, upper/lower/capitalize/title, wordwrap, striptags, urlencode, plus tables of numeric spellings/special values (inf, nan, 10**400, containers), unit boundaries for filesizeformat, round and format call shapes. Oracles are the documented contracts.",
+  note="Trusted: CrossHair models, z3, the float() overflow stub (counterexamples replayed natively). Floating-point rounding of mantissas and strings outside the stated alphabets/lengths are outside the bound.",
+  technique="symbolic execution (CrossHair/z3) of filter code on symbolic str/int + solver-exhausted selector strings vs contract oracles"),
 }
 NOT_APPLICABLE = {
  "C31": "Not applicable to solver-based checking: compile_templates/ModuleLoader are file-system, zip and import-system effects with no symbolic input to vary; the property quantifies over template sets, not data (DESIGN.md section 5).",
